@@ -574,6 +574,12 @@ func c01Gen(r *rand.Rand, tier string) []string {
 		nThin = 480
 	}
 	out = append(out, c01Thin(r, nThin)...)
+	// rps LISTS of several profiles, with step profiles and nested lists in every position (round 6)
+	nSeq := 160
+	if tier == "thorough" {
+		nSeq = 1600
+	}
+	out = append(out, c01Seq(r, nSeq)...)
 	// ill-conditioned lines
 	for i := 0; i < nIll; i++ {
 		d := c01Duration(r)
@@ -755,6 +761,10 @@ func c01DecodeAs(m map[string]string, asFactory bool) (s core.Schedule, f func()
 		if !ok {
 			return nil, nil, false
 		}
+		return c01DecodeRoot(root, asFactory)
+	}
+	if m["kind"] == "seq" {
+		root, _ := c01SeqRoot(m)
 		return c01DecodeRoot(root, asFactory)
 	}
 	if m["warm"] == "1" {
@@ -1376,6 +1386,11 @@ func c01Run(input string) string {
 	}
 	// step: how many tokens fall into each level's time slot [j*dur, (j+1)*dur)
 	parts := ""
+	if m["kind"] == "seq" {
+		// an rps list: how many operations fall into the time slot of each part of the flattened list
+		sp, _ := c01SeqParse(m["seq"])
+		parts = " parts=" + c01SeqCount(c01SeqSlots(sp), toks, func(i int) { idx[i] = true })
+	}
 	if m["kind"] == "step" {
 		d, _ := strconv.ParseInt(m["dur"], 10, 64)
 		var cnt []int
@@ -1452,6 +1467,27 @@ func c01Class(in, obs string) string {
 	o := drv.KV(obs)
 	if o["n"] == "0" || o["n"] == "" {
 		return ""
+	}
+	if m["kind"] == "seq" {
+		c := "seq/plain"
+		switch {
+		case strings.Contains(m["seq"], "list(") && strings.Contains(m["seq"], "step:"):
+			c = "seq/nested-list+step"
+		case strings.Contains(m["seq"], "list("):
+			c = "seq/nested-list"
+		case strings.Contains(m["seq"], "step:"):
+			c = "seq/step-inside"
+		}
+		if m["enc"] != "" {
+			c += "+" + m["enc"]
+		}
+		if m["conc"] != "" {
+			c += "+concurrent"
+		}
+		if m["fac"] != "" {
+			c += "+factory"
+		}
+		return c
 	}
 	d, _ := strconv.ParseInt(m["dur"], 10, 64)
 	frac := "whole-seconds"
